@@ -1681,7 +1681,9 @@ class Wtp:
                         parts.append(self._unexpanded_arg(args, nowiki))
                         continue
                     self.expand_stack.append("ARGVAL-NO-TEMPLATE")
-                    t = expand_args(ch, {})
+                    # The default value may itself contain template or
+                    # parser function calls; expand them
+                    t = expand_recurse(expand_args(ch, {}), parent, expand_all)
                     self.expand_stack.pop()
                     parts.append(t)
                     continue
